@@ -56,12 +56,6 @@ func (c *compatResponse) WriteHeader(statusCode int) {
 				if k == consts.HeaderContentLength {
 					continue
 				}
-				if k == consts.HeaderSetCookie {
-					cookie := protocol.AcquireCookie()
-					_ = cookie.Parse(vv)
-					c.h.Header.SetCookie(cookie)
-					continue
-				}
 				c.h.Header.Add(k, vv)
 			}
 		}
